@@ -154,7 +154,7 @@ def check_C06(tier, seed):
 
 def check_C07(tier, seed):
     L = 4 if tier == "quick" else 6
-    return simple_check("C07", tier, seed, lambda t: gen.sort_scenarios(gen.ALL_SHAPES, L, seed, 28 if tier == "quick" else 200), mon_c07, ["Soa.Props.C07", "Soa.Lemmas.SkelRead.C07"],
+    return simple_check("C07", tier, seed, lambda t: gen.sort_scenarios(gen.ALL_SHAPES, L, seed, 28 if tier == "quick" else 200), mon_c07, ["Soa.Props.C07", "Soa.Lemmas.SkelRead.C07", "Soa.Lemmas.SortTie"],
                         model=MODEL["C07"], widen_fn=lambda: gen.sort_scenarios(gen.ALL_SHAPES, 6, seed + 1, 100))
 
 def check_C10(tier, seed):
